@@ -43,7 +43,20 @@ def main():
         else:
             try:
                 signal.alarm(soft)
-                res = mod.run_case(case)
+                # every 23rd case of every check runs with the root log level at DEBUG: the library guards
+                # extra work with logger.isEnabledFor(DEBUG), and answers must not depend on the log level
+                import logging
+                dbg = isinstance(case.get('idx'), int) and case['idx'] % 23 == 7
+                root = logging.getLogger()
+                lvl = root.level
+                if dbg:
+                    root.setLevel(logging.DEBUG)
+                try:
+                    res = mod.run_case(case)
+                finally:
+                    root.setLevel(lvl)
+                if dbg and isinstance(res, dict):
+                    res.setdefault('counters', {})['cases_with_debug_log_level'] = 1
                 signal.alarm(0)
             except SoftTimeout:
                 res = {'inconclusive': ['soft watchdog (%ds) fired' % soft]}
